@@ -26,6 +26,12 @@ CHECKS = {
          "runtime monitor: bookkeeping recount + submit id-set oracle + exactly-once completion"),
  "C14": (SIM, "4, 5/C14", "failure counting per job over the announced events; abort reasons and survivors are checked at the step that crosses the limit",
          "runtime monitor: per-job failure counter automaton over announced events"),
+ "C10": ("E4 journal lab", "5/C10", "every record boundary (and random byte offsets inside records) of journals written by the real server inside simulation runs is restored through the real StateRestorer into a fresh server and compared with an independent reference fold; plus simulation runs with crash/restart actions",
+         "fault enumeration: restore at every journal record boundary + torn tails, compared with a reference fold"),
+ "C11": ("E4 journal lab", "5/C11", "id counters after restore vs. every id mentioned in the journal prefix at every cut (also on pruned journals); ids issued through the real submit/registration paths in simulation runs with chains of restarts",
+         "fault enumeration: id high-water-mark oracle at every journal cut + restart chains"),
+ "C12": ("E4 journal lab", "5/C12", "metamorphic comparison restore(J) vs restore(prune(J)) with the prune executed by the real journal thread (tmp file, rename, reopen) at the moments and with the live sets of real prune requests; appended records, double prune",
+         "metamorphic runtime check: restore of pruned vs. unpruned journal"),
  "C16": ("E3 allocator lab", "5/C16", "brute force over group subsets on the snapshot taken before each grant decides minimal/optimal group counts, spreading, feasibility and admission/grant agreement for the real allocator",
          "runtime monitor: brute-force reference oracle on every reached allocator free state"),
  "C20": ("E7 handshake lab", "5/C20", "two real do_authentication futures joined through a man-in-the-middle that passes, replays, reflects, splices and modifies the four frames; configuration matrix and single-frame manipulations enumerated exhaustively, multi-frame manipulations sampled",
@@ -35,8 +41,10 @@ LEVEL_NOTE = {
  SIM: "held on the executions produced, never 'verified'; trusted: registration/disconnect glue restated in tako::verif::SimServer, fake task launcher, FIFO-per-link transport model, HiGHS determinism for replay",
  "E3 allocator lab": "held on the operation sequences produced; the allocator is driven directly through tako::verif::AllocatorLab with well-formed requests; brute-force reference and ledger are small but trusted",
  "E7 handshake lab": "adversary without key material; frames decoded with mirror structs of the crate-private messages",
+ "E4 journal lab": "exhaustive over the record boundaries of the journals produced (journals themselves are sampled); reference fold is small but trusted; queue records are not produced inside E1",
 }
 LEVEL = {p: "exploration" for p in CHECKS}
+LEVEL.update({"C10": "fault_enumeration", "C11": "fault_enumeration", "C12": "fault_enumeration"})
 
 props = [json.loads(l) for l in open('/verif/properties.jsonl')]
 hooks = subprocess.run(["git", "-C", "/repo", "log", "--format=%h %s", "--grep=^verif hooks"], capture_output=True, text=True).stdout.strip().splitlines()
@@ -71,6 +79,7 @@ manifest = {
  "engines": [
    {"name": "E1 cluster simulation", "path": "/verif/harness/src/sim", "serves_properties": ["C01","C02","C03","C05","C06","C07","C08","C09","C13","C14"], "kind_free_text": "in-process simulation from the real tako core/worker state machine/HQ job layer with harness-owned nondeterminism + online/offline monitors (/verif/harness/src/oracle)"},
    {"name": "E3 allocator lab", "path": "/verif/harness/src/alloc.rs", "serves_properties": ["C04","C16"], "kind_free_text": "real ResourceAllocator under random operation sequences with shadow ledger and brute-force reference"},
+   {"name": "E4 journal lab", "path": "/verif/harness/src/journal.rs", "serves_properties": ["C10","C11","C12","C03","C06","C07"], "kind_free_text": "real JournalWriter/Reader, real StateRestorer and real journal thread (prune) on journals produced by E1; every record boundary enumerated"},
    {"name": "E7 handshake lab", "path": "/verif/harness/src/auth.rs", "serves_properties": ["C20"], "kind_free_text": "real do_authentication x2 with a man-in-the-middle"},
  ],
  "checks": checks,
